@@ -28,11 +28,26 @@ pub struct ValidatedBlock { pub inner: BlockData }
 impl ValidatedBlock {
     pub fn deref(&self) -> (r: &BlockData) ensures *r == self.inner { &self.inner }
 }
-// the keys a block contributes to an index with key type K (K::from_txid over its transactions): uninterpreted
-pub uninterp spec fn block_keys<K>(b: Block) -> Set<K>;
-// TRUSTED (rule E12): `block.txdata.iter().map(|tx| (K::from_txid(tx.compute_txid()), V::from_data(..))).collect()`;
-// only the key set matters to the index structure, the values are whatever Value::from_data builds
-#[verifier::external_body]
-pub fn block_entries<K: Key, V>(block: &Block) -> (r: HashMap<K, V>)
-    ensures r@.dom() =~= block_keys::<K>(*block), r@.dom().finite(),
-{ unimplemented!() }
+// the keys a block contributes to an index with key type K: K::from_txid over the ids of its transactions
+pub open spec fn keys_seq<K: Key>(b: Block) -> Seq<K> { b.txdata@.map_values(|tx: Transaction| K::from_txid_spec(txid_spec(tx))) }
+pub open spec fn block_keys<K: Key>(b: Block) -> Set<K> { keys_seq::<K>(b).to_set() }
+pub proof fn lemma_block_keys<K: Key>(b: Block, k: K)
+    ensures block_keys::<K>(b).contains(k) <==> exists|i: int| 0 <= i < b.txdata@.len() && k == K::from_txid_spec(txid_spec(#[trigger] b.txdata@[i]))
+{
+    let ks = keys_seq::<K>(b);
+    assert(ks.len() == b.txdata@.len());
+    if block_keys::<K>(b).contains(k) {
+        assert(ks.contains(k));
+        let i = choose|i: int| 0 <= i < ks.len() && ks[i] == k;
+        assert(k == K::from_txid_spec(txid_spec(b.txdata@[i])));
+    }
+    if exists|i: int| 0 <= i < b.txdata@.len() && k == K::from_txid_spec(txid_spec(#[trigger] b.txdata@[i])) {
+        let i = choose|i: int| 0 <= i < b.txdata@.len() && k == K::from_txid_spec(txid_spec(#[trigger] b.txdata@[i]));
+        assert(ks[i] == k);
+        assert(ks.contains(k));
+    }
+}
+// the value stored for a transaction of a block: the transaction itself or the block's hash, depending on the value type
+pub open spec fn value_of<V: Value>(tx: Transaction, h: BlockHash) -> V {
+    if V::type_spec() is Transaction { V::of_data(Data::Transaction(tx)) } else { V::of_data(Data::BlockHash(h)) }
+}
